@@ -152,3 +152,10 @@ package logql
 //@   requires p.pos >= 0
 //@   modifies p.pos
 //@   ensures p.pos >= old(p.pos)
+
+// ---- helpers used by the metric engine
+
+//@ func UnparenExpr
+//@   modifies nothing
+//@   ensures[not-paren] !typeis[*ParenExpr](ret0)
+//@   ensures[identity-unless-paren] !typeis[*ParenExpr](e) ==> ret0 == e
